@@ -31,6 +31,10 @@ pub enum AOp {
     ReadHold(u8),
     /// write guard held across k scheduler steps, then set(upd(read, t))
     WriteHold(u8, u64),
+    /// write guard held across k scheduler steps and released without having written anything
+    /// (`.1`: a `set_if_not_eq` of the value it read goes through the guard first — stores nothing,
+    /// notifies nobody)
+    WriteHoldNoop(u8, bool),
     Subscribe { reset: bool },
     Next,
     /// poll a `next()` future up to k times, drop it (cancellation), then await a fresh `next()`
@@ -292,16 +296,40 @@ async fn run_task(tid: usize, ops: Vec<AOp>, mut owner: Option<Owner>, mut sub: 
                     sh.rec(tid, HOp::Rmw(t), inv, Res::Val(a));
                 }
             }
+            AOp::WriteHoldNoop(k, cond) => {
+                if let Some(Owner::Shared(s)) = owner.as_ref() {
+                    let mut g = s.write().await;
+                    sh.held.set(sh.held.get() + 1);
+                    let a = *g;
+                    if cond {
+                        if let Some(p) = ObservableWriteGuard::set_if_not_eq(&mut g, a) {
+                            sh.violate("guard_exclusion", format!("set_if_not_eq({a}) through a write guard that shows {a} replaced {p}"));
+                        }
+                    }
+                    for _ in 0..k {
+                        YieldNow(false).await;
+                    }
+                    let b = *g;
+                    drop(g);
+                    sh.held.set(sh.held.get() - 1);
+                    if a != b {
+                        sh.violate("guard_exclusion", format!("the value changed from {a} to {b} under a write guard that wrote nothing"));
+                    }
+                    sh.rec(tid, HOp::Read, inv, Res::Val(a));
+                }
+            }
             AOp::Subscribe { reset } => {
-                if sub.is_none() {
+                if sub.is_none() && owner.is_some() {
+                    // the id is taken before the (possibly suspending) call: two tasks may be
+                    // subscribing at the same time
                     let id = sh.next_sub.get();
+                    sh.next_sub.set(id + 1);
                     let s = match owner.as_ref() {
                         Some(Owner::Unique(u)) => Some(if reset { Observable::subscribe_reset_async(u) } else { Observable::subscribe_async(u) }),
                         Some(Owner::Shared(s)) => Some(if reset { s.subscribe_reset() } else { s.subscribe().await }),
                         None => None,
                     };
                     if let Some(s) = s {
-                        sh.next_sub.set(id + 1);
                         sub = Some((id, s));
                         sh.rec(tid, HOp::Subscribe { id, reset }, inv, Res::Unit);
                     }
@@ -737,7 +765,7 @@ pub fn gen_async_case(rng: &mut Rng) -> ACase {
                 2
             }
         } else {
-            rng.below(3)
+            rng.below(4)
         };
         let k = 1 + rng.below(3);
         let mut ops = Vec::new();
@@ -758,10 +786,32 @@ pub fn gen_async_case(rng: &mut Rng) -> ACase {
             1 => {
                 for _ in 0..k {
                     ops.push(match rng.below(6) {
-                        0 | 1 => AOp::WriteHold(1 + rng.below(3) as u8, 1 + rng.below(5) as u64),
+                        0 | 1 => {
+                            if rng.chance(1, 3) {
+                                AOp::WriteHoldNoop(1 + rng.below(3) as u8, rng.chance(1, 2))
+                            } else {
+                                AOp::WriteHold(1 + rng.below(3) as u8, 1 + rng.below(5) as u64)
+                            }
+                        }
                         2 | 3 => AOp::ReadHold(1 + rng.below(3) as u8),
                         4 => AOp::Set(val()),
                         _ => AOp::Yield,
+                    });
+                }
+            }
+            3 => {
+                // a task that subscribes late (possibly while a guard is held or a writer is queued)
+                // and then looks at what its new subscriber has to say
+                for _ in 0..rng.below(3) {
+                    ops.push(AOp::Yield);
+                }
+                ops.push(AOp::Subscribe { reset: rng.chance(1, 4) });
+                for _ in 0..k {
+                    ops.push(match rng.below(6) {
+                        0..=2 => AOp::Next,
+                        3 => AOp::NextNow,
+                        4 => AOp::SubGet,
+                        _ => AOp::NextCancel(1 + rng.below(2) as u8),
                     });
                 }
             }
